@@ -69,6 +69,7 @@ typedef struct {
   int count[VK_NKINDS];
   int has_float, has_acc, has_x, has_inplace, has_special_load, has_64;
   int max_live_temps;
+  int acc_nonarray;         /* an accumulating opcode reads something that is not a source array */
   int ldres_shared;         /* an array is read by ldres* and by another access */
 } ProgSpec;
 
